@@ -199,7 +199,60 @@ func (ex *Exec) intrinsic(fr *Frame, fn *ssa.Function, args []Value, env []Value
 		if r, ok := mapIteConst(x, func(c *T) *T { return RF(math.Sqrt(ratToFloat(c.r))) }, 0); ok {
 			return r, FF, true
 		}
-		unsup("math.Sqrt of a symbolic real")
+		// symbolic: introduced by its defining (in)equations; a negative argument (NaN natively) is a query
+		ex.stub("math.Sqrt(x) = s with s >= 0 and s*s = x (exact real square root; NaN for x < 0 is reported as a query)")
+		ex.inexact["math.Sqrt of a symbolic value (exact real root instead of the rounded float)"]++
+		if ex.checkPanics {
+			ex.queries = append(ex.queries, Query{"panic", "NaN: math.Sqrt of a negative number", And(g, Lt(x, RI(0)))})
+		}
+		sv := RealVar(ex.freshName("sqrt"))
+		ex.assumes = append(ex.assumes, Or(Not(And(g, Le(RI(0), x))), And(Le(RI(0), sv), Eq(Mul(sv, sv), x))))
+		return sv, FF, true
+	case "math.Cbrt":
+		x := args[0].(*T)
+		if isC(x) {
+			return RF(math.Cbrt(ratToFloat(x.r))), FF, true
+		}
+		ex.stub("math.Cbrt(x) = c with c*c*c = x (exact real cube root)")
+		ex.inexact["math.Cbrt of a symbolic value (exact real root instead of the rounded float)"]++
+		cv := RealVar(ex.freshName("cbrt"))
+		ex.assumes = append(ex.assumes, Or(Not(g), Eq(Mul(Mul(cv, cv), cv), x)))
+		return cv, FF, true
+	case "math.Hypot":
+		x, y := args[0].(*T), args[1].(*T)
+		if isC(x) && isC(y) {
+			return RF(math.Hypot(ratToFloat(x.r), ratToFloat(y.r))), FF, true
+		}
+		ex.stub("math.Hypot(x,y) = h with h >= 0 and h*h = x*x + y*y")
+		ex.inexact["math.Hypot of symbolic values (exact real value instead of the rounded float)"]++
+		hv := RealVar(ex.freshName("hypot"))
+		ex.assumes = append(ex.assumes, Or(Not(g), And(Le(RI(0), hv), Eq(Mul(hv, hv), Add(Mul(x, x), Mul(y, y))))))
+		return hv, FF, true
+	case "math.Atan2", "math.Cos", "math.Sin", "math.Acos", "math.Atan":
+		allC := true
+		for _, a := range args {
+			if !isC(a.(*T)) {
+				allC = false
+			}
+		}
+		if allC {
+			f := func(i int) float64 { return ratToFloat(args[i].(*T).r) }
+			switch name {
+			case "math.Atan2":
+				return RF(math.Atan2(f(0), f(1))), FF, true
+			case "math.Cos":
+				return RF(math.Cos(f(0))), FF, true
+			case "math.Sin":
+				return RF(math.Sin(f(0))), FF, true
+			case "math.Acos":
+				return RF(math.Acos(f(0))), FF, true
+			case "math.Atan":
+				return RF(math.Atan(f(0))), FF, true
+			}
+		}
+		ex.stub(name + " of a symbolic value = unconstrained fresh value (uninterpreted: a proof holds for the real function, a sat answer is only a candidate)")
+		ex.inexact[name+" uninterpreted"]++
+		return RealVar(ex.freshName("trig")), FF, true
 	case "math.Abs":
 		x := args[0].(*T)
 		return Ite(Lt(x, RI(0)), Neg(x), x), FF, true
